@@ -257,11 +257,15 @@ def answer (ws : List String) : String :=
           let window := !bad.isEmpty && bad.all (·.2)
           "propfail " ++ ",".intercalate (failed.map (·.1)) ++ " " ++ arm ++
             " window=" ++ (if window then "1" else "0") ++ " origins=" ++ (if orig then "1" else "0") ++
-            " order=" ++ (if tr.all (trackerOrderOk ops) then "1" else "0") ++
+            " order=" ++ (if tr.all (trackerOrderOk ops) || failed.any (fun c => c.1 != "tracker_order") then "1" else "0") ++
             -- does the implementation behave exactly as the model (which includes the recorded defects) predicts?
             " agree=" ++ (if a.firstDiff.isNone then "1" else "0")
-        let failedPre := (clauses ops (trace.take cut)).filter (fun c => !c.2)
-        let failed := (clauses ops trace).filter (fun c => !c.2)
+        -- the order of arrival at the tracker is independent of what the peers serve: when other clauses
+        -- fail too they are reported (the order failure shows up alone in other cases)
+        let dropOrder := fun (l : List (String × Bool)) =>
+          if l.any (fun c => c.1 != "tracker_order") then l.filter (fun c => c.1 != "tracker_order") else l
+        let failedPre := dropOrder ((clauses ops (trace.take cut)).filter (fun c => !c.2))
+        let failed := dropOrder ((clauses ops trace).filter (fun c => !c.2))
         if !failedPre.isEmpty then report (trace.take cut) (wins.take cut) false failedPre
         else if a.firstDiff.isSome && a.firstDiffAt < cut then "diff " ++ arm ++ " " ++ a.firstDiff.getD ""
         else if !failed.isEmpty then report trace wins origins failed
